@@ -161,7 +161,7 @@ def check_roundtrip(c, st):
         return ('roundtrip:reparse-raised:' + type(e).__name__, 'URL(%r) raised %r (from %r)' % (T, e, c))
     u = build(c)
     want = {'username': nfc(c['username'] or ''), 'password': nfc(c['password'] or ''),
-            'path': tuple(nfc(x) for x in c['path']),
+            'path': tuple(nfc(x) for x in (c['path'] if c['path'][:1] == [''] or not c['path'] else [''] + list(c['path']))),
             'query': [(nfc(k), nfc(val)) for k, val in c['query']], 'fragment': nfc(c['fragment'] or '')}
     have = {'username': v.username, 'password': v.password, 'path': v.path_parts,
             'query': v.query_params.items(multi=True), 'fragment': v.fragment}
@@ -321,7 +321,8 @@ def check_total(c, st):
     except Exception as e:
         return ('totality:URL:%s' % type(e).__name__, 'URL(%r) raised %r' % (arg, e))
     if 'text' in c:
-        for kw in ({}, {'with_text': True}):
+        for kw in ({}, {'with_text': True}, {'default_scheme': None}, {'schemes': ['https', 'ftp']},
+                   {'default_scheme': 'x-app', 'schemes': ['x-app'], 'with_text': True}):
             try:
                 uu.find_all_links(c['text'], **kw)
             except Exception as e:
@@ -481,6 +482,8 @@ def gen_roundtrip(r):
     c['username'] = r.choice([None, '', 'user', rtext(r)])
     c['password'] = r.choice([None, '', 'pw', rtext(r)])
     c['path'] = [''] + [rtext(r, 5) for _ in range(r.randint(0, 4))]
+    if r.random() < 0.1 and len(c['path']) > 1 and c['path'][1] != '':
+        c['path'] = c['path'][1:]       # segments given without the leading '' (the path is rendered under the host all the same)
     q = []
     for _ in range(r.randint(0, 4)):
         k = rtext(r, 5)
